@@ -48,6 +48,10 @@ def run(ctx) -> None:
     r19_2(ctx)
     r19_3(ctx)
     r19_4(ctx)
+    from .common import keywords_cannot_collide
+    ctx.rule("R19.5", "apply: every split of the target's arguments into positional and keyword awaitables is accepted - the "
+                      "function to apply is positional-only, so no keyword name is taken by apply itself")
+    keywords_cannot_collide(ctx, "R19.5", ctx.unit("asynctools.apply"), "the function that is applied")
 
 
 # --------------------------------------------------------------------------- shape machine
